@@ -9,9 +9,12 @@ the primitive `Op`s the theorems quantify over.
   raw  <tag> <matcher>          `create_*_response_future` now; a caller task (`async with timeout: await fut`) is spawned
   wait <tag> <matcher>          task `wait_for_*_message(...)` spawned (registers when it first runs)
   exec <tag> <mode> <matcher>   task `execute(cmd, response=True)` spawned; mode 0 send ok, 1 send raises,
-                                2 send suspends once then ok, 3 suspends once then raises
+                                2 send suspends once then ok, 3 suspends once then raises,
+                                4 send waits for ever (only a cancellation of the task ends it)
   msg <conn> <cls> <n> (<field> <val>)*      `on_message_received` inside the current task step
-  cancelfut <tag> | canceltask <tag>
+  cancelfut <tag> | canceltask <tag>      canceltask on an `execute` that is still suspended in `send`: the
+                                CancelledError is thrown into `send` when the task next runs (modes 2,3: its
+                                already scheduled continuation; mode 4: a wake-up scheduled now) = `sendFails k true`
   yield <tag>*                  the driving task yields; the rest of this loop iteration runs; the timeouts of
                                 the given waiters fire (end of the iteration); the next iteration runs up to the
                                 driving task
@@ -29,11 +32,14 @@ inductive Item
   | startExec (tag : Nat) (mode : Nat) (m : Matcher)
   | awaitT (k : Nat)
   | failT (k : Nat)
+  | abortT (k : Nat)           -- CancelledError delivered to a task that waits in `send` (mode 4)
 
 structure DS where
   s : State := {}
   rq : List Item := []
   tags : List Nat := []        -- tag of the waiter with index k
+  modes : List Nat := []       -- exec mode of the waiter with index k (0 for raw / wait)
+  sendCancelled : List Nat := []   -- waiters whose task was cancelled while suspended in `send`
   ymark : Nat := 0             -- items at the head of rq that still belong to the current iteration
 
 def prim (d : DS) (op : Op) : DS :=
@@ -47,18 +53,20 @@ def runItem (d : DS) : Item → DS
   | .startWait tag m =>
     let k := d.s.ws.length
     let d := prim d (.create .wait m)
-    prim { d with tags := d.tags ++ [tag] } (.awaitF k)
+    prim { d with tags := d.tags ++ [tag], modes := d.modes ++ [0] } (.awaitF k)
   | .startExec tag mode m =>
     let k := d.s.ws.length
     let d := prim d (.create .exec m)
-    let d := { d with tags := d.tags ++ [tag] }
+    let d := { d with tags := d.tags ++ [tag], modes := d.modes ++ [mode] }
     match mode with
     | 0 => prim d (.awaitF k)
-    | 1 => prim d (.sendFails k)
+    | 1 => prim d (.sendFails k false)
     | 2 => { d with rq := d.rq ++ [.awaitT k] }
-    | _ => { d with rq := d.rq ++ [.failT k] }
-  | .awaitT k => prim d (.awaitF k)
-  | .failT k => prim d (.sendFails k)
+    | 3 => { d with rq := d.rq ++ [.failT k] }
+    | _ => d
+  | .awaitT k => if d.sendCancelled.contains k then prim d (.sendFails k true) else prim d (.awaitF k)
+  | .failT k => prim d (.sendFails k (d.sendCancelled.contains k))
+  | .abortT k => prim d (.sendFails k true)
 
 /-- run `n` items from the head of the queue -/
 def runN : Nat → DS → DS
@@ -169,7 +177,7 @@ def handle (d : DS) (line : String) : DS × String :=
     | some tag, some m =>
       let k := d.s.ws.length
       let d := prim d (.create .raw m)
-      let d := { d with tags := d.tags ++ [tag], rq := d.rq ++ [.awaitT k] }
+      let d := { d with tags := d.tags ++ [tag], modes := d.modes ++ [0], rq := d.rq ++ [.awaitT k] }
       (d, snapshot d)
     | _, _ => (d, "bad-op")
   | "wait" :: tag :: rest =>
@@ -179,7 +187,7 @@ def handle (d : DS) (line : String) : DS × String :=
   | "exec" :: tag :: mode :: rest =>
     match tag.toNat?, mode.toNat?, parseMatcher rest with
     | some tag, some mode, some m =>
-      if mode < 4 then let d := { d with rq := d.rq ++ [.startExec tag mode m] }; (d, snapshot d) else (d, "bad-op")
+      if mode < 5 then let d := { d with rq := d.rq ++ [.startExec tag mode m] }; (d, snapshot d) else (d, "bad-op")
     | _, _, _ => (d, "bad-op")
   | "msg" :: c :: mc :: n :: rest =>
     match parseConn c, mc.toNat?, n.toNat? with
@@ -194,7 +202,19 @@ def handle (d : DS) (line : String) : DS × String :=
     | none => (d, "bad-op")
   | ["canceltask", tag] =>
     match tag.toNat?.bind (idxOf d) with
-    | some k => let d := prim d (.cancelTask k); (d, snapshot d)
+    | some k =>
+      -- is the task still inside `command.send`?  (exec waiter, created, caller neither awaiting nor answered)
+      let sending := match d.s.ws[k]? with
+        | some (w : Waiter) => decide (w.kind = Kind.exec) && !w.started && decide (w.out = Outcome.none)
+        | none => false
+      if sending then
+        if d.sendCancelled.contains k then (d, snapshot d)
+        else
+          let d := { d with sendCancelled := k :: d.sendCancelled }
+          let d := if d.modes[k]? == some 4 then { d with rq := d.rq ++ [Item.abortT k] } else d
+          (d, snapshot d)
+      else
+        let d := prim d (.cancelTask k); (d, snapshot d)
     | none => (d, "bad-op")
   | "yield" :: tags =>
     match tags.mapM (fun t => t.toNat?.bind (idxOf d)) with
